@@ -16,7 +16,7 @@ type Env struct {
 	st     State
 	old    State
 	vars   map[string]Val
-	lookup func(name string) (Val, bool)
+	lookup func(env *Env, name string) (Val, bool)
 	pkg    *types.Package
 	depth  int
 	guard  string // guard under which side assumptions (map length axioms) are emitted
@@ -144,7 +144,7 @@ func (env *Env) eval(x Expr) Val {
 			return v
 		}
 		if env.lookup != nil {
-			if v, ok := env.lookup(n.Name); ok {
+			if v, ok := env.lookup(env, n.Name); ok {
 				return v
 			}
 		}
